@@ -181,7 +181,7 @@ SessCall(st, c) == [st EXCEPT !.prev = UNION {Fillna(g, CallMethods(st, c), c.li
 \* earlier call (its input, its methods, its limit, its result) plays any part, and an object that
 \* descends from an earlier result is a float vector / frame like any other.
 \* The caller's own actions, as functions of the contents (d = [kind, k, i, j]; n0 = the length of
-\* the calendar the session started with: new labels are n0 + 1, n0 + 2, ...):
+\* the calendar the session started with: new labels are later than it and than every label of the object):
 \* ---------------------------------------------------------------------------------------------
 NaNs(k) == [i \in 1..k |-> NaN]
 HasLabel(f, t) == \E i \in 1..NRows(f) : f.rows[i] = t
@@ -191,7 +191,8 @@ Reindex(f, labs) ==
     [rows |-> labs,
      cols |-> [j \in 1..NCols(f) |-> [k \in 1..Len(labs) |-> IF HasLabel(f, labs[k]) THEN f.cols[j][RowOf(f, labs[k])] ELSE NaN]]]
 \* k new rows at the end (reindex onto the own index + k later labels; np.concatenate for an array)
-Extend(f, k, n0) == [rows |-> f.rows \o [i \in 1..k |-> n0 + i], cols |-> [j \in 1..NCols(f) |-> f.cols[j] \o NaNs(k)]]
+TopLabel(f, n0)  == MaxS({n0} \cup {f.rows[i] : i \in 1..NRows(f)})
+Extend(f, k, n0) == [rows |-> f.rows \o [i \in 1..k |-> TopLabel(f, n0) + i], cols |-> [j \in 1..NCols(f) |-> f.cols[j] \o NaNs(k)]]
 \* lag by one position: the labels stay, the first row is NaN, the last value is lost
 Lag(f) == [rows |-> f.rows, cols |-> [j \in 1..NCols(f) |-> [i \in 1..NRows(f) |-> IF i = 1 THEN NaN ELSE f.cols[j][i - 1]]]]
 \* withdraw observations IN PLACE: row i of column j (j = 0: of every column)
